@@ -53,7 +53,7 @@ CHECKS = {
             "DESIGN.md §4 C09", "E1-BFS+E2"),
     "C10": ("model_checking",
             "explicit-state breadth-first search over DHCP message / static-lease / expiry / restart histories executed on the real v4Server with the real database wiring, level-synchronous across 16 processes with global state deduplication, lease-table invariants and a tiny allocator reference model",
-            "Subnet /29 with a 3-address pool, 3 clients (thorough: 4 clients, hostnames, requested addresses), 92 operations (DISCOVER, REQUEST selecting/init-reboot/renew, DECLINE, RELEASE, static add/update/remove inside/outside pool/gateway/out of subnet, 2 h clock advance, restart), depth 4 (quick) / 6 (thorough); after every transition: one lease per address and client, dynamic leases inside the pool, list = hostname index = IP index = bitset, every OFFER/ACK against the model, leases.json = memory, restart preserves table and DNS answers; every state is also probed with a DISCOVER from a new client (offer iff a pool address is free).",
+            "Subnet /29 with a 3-address pool, 3 clients (thorough: 4 clients, hostnames, requested addresses), 95 operations (DHCP switched off in the configuration (only the lease API is then used), DISCOVER, REQUEST selecting/init-reboot/renew, DECLINE, RELEASE, static add/update/remove inside/outside pool/gateway/out of subnet, 2 h clock advance, restart), depth 4 (quick) / 6 (thorough); after every transition: one lease per address and client, dynamic leases inside the pool, list = hostname index = IP index = bitset, every OFFER/ACK against the model, leases.json = memory, restart preserves table and DNS answers; every state is also probed with a DISCOVER from a new client (offer iff a pool address is free).",
             "a static add legitimately revokes dynamic leases of the same client or address (documented dnsmasq-like behaviour); ICMP probing off; virtual clock.",
             "DESIGN.md §4 C10", "E1-BFS"),
     "C11": ("exploration",
